@@ -73,6 +73,10 @@ def reuse_sequence(c, rng, ver):
 
 
 def generate(rng, tier, seed):
+    from props.tr31util import boundary_cases
+    for ver in "BD":
+        for c, *_ in boundary_cases(rng, ver, tier):
+            yield c
     reps = 1 if tier == "quick" else 4
     for ver in "ABCD":
         for _ in range(15 * reps):
